@@ -1,0 +1,48 @@
+//! Verification hooks (feature `xot_verif`): public wrappers around crate-private pure
+//! functions so that an external harness can call them directly. Adds no behaviour.
+
+use std::borrow::Cow;
+
+use crate::output::NoopNormalizer;
+use crate::ParseError;
+
+/// `entity::parse_text`
+pub fn parse_text(content: &str, base_position: usize) -> Result<String, ParseError> {
+    crate::entity::parse_text(Cow::Borrowed(content), base_position).map(|c| c.into_owned())
+}
+
+/// `entity::parse_attribute`
+pub fn parse_attribute(content: &str, base_position: usize) -> Result<String, ParseError> {
+    crate::entity::parse_attribute(Cow::Borrowed(content), base_position).map(|c| c.into_owned())
+}
+
+/// `entity::serialize_text`
+pub fn serialize_text(content: &str, unescaped_gt: bool) -> String {
+    crate::entity::serialize_text(Cow::Borrowed(content), &NoopNormalizer, unescaped_gt)
+        .into_owned()
+}
+
+/// `entity::serialize_cdata`
+pub fn serialize_cdata(content: &str) -> String {
+    crate::entity::serialize_cdata(Cow::Borrowed(content), &NoopNormalizer).into_owned()
+}
+
+/// `entity::serialize_attribute`
+pub fn serialize_attribute(content: &str) -> String {
+    crate::entity::serialize_attribute(Cow::Borrowed(content), &NoopNormalizer).into_owned()
+}
+
+/// `output::html5_serializer::serialize_text_html`
+pub fn serialize_text_html(content: &str) -> String {
+    crate::output::verif_serialize_text_html(content)
+}
+
+/// `output::html5_serializer::serialize_attribute_html`
+pub fn serialize_attribute_html(content: &str) -> String {
+    crate::output::verif_serialize_attribute_html(content)
+}
+
+/// `parse::normalize_xml_id`
+pub fn normalize_xml_id(value: &str) -> String {
+    crate::parse::verif_normalize_xml_id(value)
+}
